@@ -85,7 +85,7 @@ def run(tier, seed):
         ck.violation("harness does not build against /repo", {"kind": "build", "stderr": err[-3000:]}, no_input=True)
         return ck.finish("n/a", TRUSTED, [])
     rng = ck.rng
-    nprog = 120 if tier == "quick" else 1500
+    nprog = 120 if tier == "quick" else 8000
 
     # ------------------------------------------------------------ programs
     progs = []   # (name, source)
